@@ -38,6 +38,48 @@ def P(group, test, race=False, batches=(1, 1), workers=None, watchdog=(600, 3600
 
 
 PROPS = {
+    # stablecomp: generator / corpus differentials on the stable compiler
+    "C01": P("stablecomp", "TestC01"),
+    "C02": P("stablecomp", "TestC02"),
+    "C03": P("stablecomp", "TestC03"),
+    "C04": P("stablecomp", "TestC04"),
+    "C09": P("stablecomp", "TestC09", race=True),
+    "C10": P("stablecomp", "TestC10"),
+    "C15": P("stablecomp", "TestC15"),
+    "C18": P("stablecomp", "TestC18"),
+    "C19": P("stablecomp", "TestC19"),
+    "C20": P("stablecomp", "TestC20"),
+    "C21": P("stablecomp", "TestC21"),
+    "C22": P("stablecomp", "TestC22"),
+    "C23": P("stablecomp", "TestC23"),
+    "C24": P("stablecomp", "TestC24"),
+    # stableconc: schedules / faults on the stable compiler
+    "C05": P("stableconc", "TestC05", race=True, batches=(4, 8), workers=4),
+    "C06": P("stableconc", "TestC06", race=True, batches=(4, 8), workers=4),
+    "C07": P("stableconc", "TestC07", race=True, batches=(4, 8), workers=4, level="fault_enumeration"),
+    "C08": P("stableconc", "TestC08", race=True, batches=(4, 8), workers=4),
+    "C16": P("stableconc", "TestC16", race=True, batches=(4, 8), workers=4),
+    "C17": P("stableconc", "TestC17"),
+    # stabletext: lexer/parser level
+    "C11": P("stabletext", "TestC11"),
+    "C12": P("stabletext", "TestC12", batches=(4, 16), workers=4),
+    "C13": P("stabletext", "TestC13"),
+    "C14": P("stabletext", "TestC14"),
+    "C25": P("stabletext", "TestC25"),
+    "C26": P("stabletext", "TestC26"),
+    # experimental compiler
+    "C27": P("exppipe", "TestC27"),
+    "C35": P("exppipe", "TestC35"),
+    "C36": P("exppipe", "TestC36", race=True),
+    "C28": P("explex", "TestC28", batches=(4, 16), workers=4),
+    "C29": P("explex", "TestC29", batches=(4, 16), workers=4),
+    "C30": P("explex", "TestC30"),
+    "C31": P("explex", "TestC31"),
+    "C32": P("expsrc", "TestC32"),
+    "C37": P("expsrc", "TestC37"),
+    "C33": P("incr", "TestC33", race=True, batches=(4, 8), workers=4),
+    "C34": P("incr", "TestC34", race=True, batches=(4, 8), workers=4),
+    # small internal data structures
     "C38": P("small", "TestC38", race=True),
     "C39": P("small", "TestC39"),
     "C40": P("small", "TestC40"),
